@@ -19,10 +19,15 @@ META = {
             'answers, the USE the driver then sends on every pool to propagate the keyspace may be answered, refused, fail or '
             'stay unanswered for ever) and an EXECUTE of a prepared statement with timeout 1.0 that is answered UNPREPARED '
             '(re-prepare task, PREPARE, second EXECUTE, each possibly never answered; the timeout may fire while any of the '
-            'follow-up tasks is still queued): answers may never come.  Invariant in every state: an unfinished '
-            'page fetch has virtual time <= its start + timeout + 30 ms (the documented PYTHON-853 re-arm), a finished one '
-            'finished by then; when no timer and no task is left every fetch has finished.',
-    'note': 'Query plans are finite (3 hosts).  Time is the virtual clock that every driver module reads; it advances only '
+            'follow-up tasks is still queued), plus paging histories with timeouts {0, 1.0} x speculative executions {0, 1 (delay 0.4)} '
+            'on 2 hosts with up to three (thorough: four) fetches after the first page, where a fetch may end normally, with an error '
+            'response (invalid, overloaded with RETHROW), with NoHostAvailable (RETRY_NEXT_HOST or lost connections until the plan is '
+            'used up) or by the client timeout, and the application, the paging state still being there, fetches that page again '
+            '(repeatedly), the server staying silent for the repeated fetch too or answering the abandoned fetch late: answers may '
+            'never come.  Invariant in every state, for every fetch (first page, later page, repeated after a failed fetch; each has '
+            'its own start): an unfinished page fetch has virtual time <= its start + timeout + 30 ms (the documented PYTHON-853 '
+            're-arm), a finished one finished by then; when no timer and no task is left every fetch has finished.',
+    'note': 'Query plans are finite (1-3 hosts).  Time is the virtual clock that every driver module reads; it advances only '
             'when the earliest pending timer fires.',
     'design_ref': 'C15',
 }
@@ -36,12 +41,24 @@ class H(c14.H):
     def init(self):
         st = c14.H.init(self)
         st.fetch_start = [st.w.clock.now for _ in st.futures]
+        # the current fetch asks again for a page whose previous fetch ended with an exception
+        st.refetch = [False for _ in st.futures]
         return st
 
     def apply(self, st, ev):
         if ev[0] == 'next_page':
             st.fetch_start[ev[1]] = st.w.clock.now
+            st.refetch[ev[1]] = st.futures[ev[1]]._final_exception is not None
         c14.H.apply(self, st, ev)
+
+    def canon(self, st):
+        return c14.H.canon(self, st) + (tuple(st.refetch),)
+
+    @staticmethod
+    def page_of(st, fi):
+        if st.observers[fi].generation == 0:
+            return 'first'
+        return 'repeated' if st.refetch[fi] else 'later'
 
     def is_quiescent(self, st, evs):
         return not st.w.live_timers() and not st.w.tasks
@@ -50,7 +67,7 @@ class H(c14.H):
         to = self.params['timeout']
         for fi, (f, o) in enumerate(zip(st.futures, st.observers)):
             deadline = st.fetch_start[fi] + to + EPS
-            page = 'first' if o.generation == 0 else 'later'
+            page = self.page_of(st, fi)
             if f._event.is_set():
                 when = o.order[0][1] if o.order else st.w.clock.now
                 part.outcome(('done', page, type(f._final_exception).__name__))
@@ -70,7 +87,7 @@ class H(c14.H):
     def at_quiescence(self, st, part, hist):
         for fi, (f, o) in enumerate(zip(st.futures, st.observers)):
             if not f._event.is_set():
-                page = 'first' if o.generation == 0 else 'later'
+                page = self.page_of(st, fi)
                 part.violation('C15/never-finishes/%s-page' % page,
                                'no timer and no task left, %d request(s) unanswered, fetch incomplete: it can never finish'
                                % len(st.pending()), {'params': self.params, 'history': hist})
@@ -89,6 +106,17 @@ def configs(ctx):
         p = dict(hosts=hosts, timeout=to, spec=spec, spec_delay=delay, paged=True, kinds=['rows_more', 'overloaded'],
                  decisions=['RETRY', 'RETRY_NEXT_HOST'], faults=False, task_window=1, max_pages=1)
         out.append(('h%d-s%d-d%s-t%s' % (hosts, spec, delay, to), p, 6 if ctx.quick else 8))
+    # paging histories: up to three (thorough: four) fetches after the first page.  A fetch may end normally (rows_more), with
+    # an error response (invalid; overloaded + RETHROW), with NoHostAvailable (RETRY_NEXT_HOST / lost connections until
+    # the plan of 2 hosts is used up) or by the client timeout; while the paging state is still there the application
+    # may then ask for that page AGAIN ('repeated' fetch), and the server may stay silent for that fetch as well (or
+    # answer the timed-out earlier fetch late).  Every fetch has its own deadline (start_fetching_next_page + timeout).
+    for to in (0.0, 1.0):
+        for spec in (0, 1):
+            p = dict(hosts=2, timeout=to, spec=spec, spec_delay=0.4, paged=True, kinds=['rows_more', 'invalid', 'overloaded'],
+                     decisions=['RETRY_NEXT_HOST', 'RETHROW'], faults=(spec == 0), task_window=1,
+                     max_pages=4 if ctx.thorough else 3)
+            out.append(('pages-t%s-s%d' % (to, spec), p, 8 if ctx.quick else 10))
     # continuations other than a retry (see checks/c14.py): an application USE whose propagation to the other pools may
     # never be answered, and a re-prepare of an unknown prepared statement
     for to in (0.0, 1.0):
@@ -105,7 +133,8 @@ def run(ctx):
     for name, params, depth in configs(ctx):
         explore.bfs(ctx, H, params, max_depth=depth, label='c15-' + name, max_states=200000 if ctx.thorough else 30000)
     ctx.cov['rule'] = ('state = event history replayed on a fresh real Session; non-trivial = distinct canonical state at depth >= 2; '
-                       'outcomes = (done/open, first/later page, final exception type)')
+                       'outcomes = (done/open, first/later/repeated page fetch, final exception type); repeated = start_fetching_next_page called '
+                       'while the previous fetch of this future had ended with an exception')
     ctx.assume('handlers are atomic with respect to each other (single-threaded histories)')
     ctx.assume('epsilon = 30 ms: _on_timeout re-arms itself up to 3 x 10 ms while no connection has been borrowed yet (PYTHON-853)')
 
